@@ -243,3 +243,147 @@ func c12RunTyped(s c12Scn) mc.Result {
 	}
 	return mc.OK(mc.Hash("encode-typed", strconv.Itoa(s.Buf)), true, 1)
 }
+
+// ---------------------------------------------------------------------------
+// boundary families: argument counts and bulk lengths next to powers of two and next to
+// the numeric constants of pkg/redis/client (encoder.go itos table: 512*1024+1024 entries
+// = values -1024..524287) and of its users (conn.ReaderBufferSize 512 KiB,
+// conn.WriterBufferSize 1 MiB, the 64 KiB / 1 MiB readers of the tool's pipes).
+
+// c12ManyArgs: DEL with elements-1 arguments of 0..8 bytes ("k<i>", every 97th one empty,
+// every 101st one a bare CRLF), all carved out of one backing array.
+func c12ManyArgs(elements int) c12Cmd {
+	n := elements - 1
+	back := make([]byte, 0, 9*n)
+	args := make([][]byte, n)
+	for i := 0; i < n; i++ {
+		st := len(back)
+		switch {
+		case i%97 == 96:
+		case i%101 == 100:
+			back = append(back, '\r', '\n')
+		default:
+			back = append(back, 'k')
+			back = strconv.AppendInt(back, int64(i), 10)
+		}
+		args[i] = back[st:len(back):len(back)]
+	}
+	return c12Cmd{name: "DEL", args: args}
+}
+
+type c12Reader struct {
+	buf  int
+	frag string
+	cuts func(n int) []int
+}
+
+// c12RunBoundaries enumerates the boundary cases; every case is ONE decoder / parser /
+// encoder run and one execution.
+func c12RunBoundaries(rep *mc.Reporter, mine func() bool, thorough bool, decoderRuns, parserRuns *int64) {
+	mid := func(n int) []int { return []int{n / 2, n - 1} }
+	pages := func(n int) []int { // a read boundary every 4093 bytes
+		var c []int
+		for p := 4093; p < n; p += 4093 {
+			c = append(c, p)
+		}
+		return c
+	}
+	dec := func(s c12Scn, r c12Reader) {
+		if !mine() {
+			return
+		}
+		rep.Scenario()
+		s.Path, s.Fam, s.Buf, s.Frag, s.HB = "decode", "boundary", r.buf, r.frag, []int{0, 0}
+		if r.cuts != nil {
+			n := 16*s.Count + s.BulkLen + 64
+			if s.Count > 0 || s.BulkLen > 0 {
+				cmds := s.commands()
+				data, _, _ := s.stream(cmds)
+				n = len(data)
+			}
+			s.Cuts = r.cuts(n)
+		}
+		res, v, runs := c12RunDecode(s, false)
+		*decoderRuns += int64(runs)
+		if v != nil {
+			s = *v
+		}
+		if len(s.Cuts) > 8 {
+			s.Cuts = s.Cuts[:8] // keep the evidence small; replay of such a case uses the first cuts only
+		}
+		rep.Exec(s, nil, res)
+	}
+	par := func(s c12Scn, buf int, start int64, startDb int) {
+		if !mine() {
+			return
+		}
+		rep.Scenario()
+		s.Path, s.Fam, s.Buf, s.Frag, s.HB, s.Start, s.StartDb = "parse", "boundary", buf, "whole", []int{0, 0}, start, startDb
+		res, runs := c12RunParse(s)
+		*parserRuns += int64(runs)
+		rep.Exec(s, nil, res)
+	}
+	enc := func(s c12Scn, path string, wsize, rsize int) {
+		if !mine() {
+			return
+		}
+		rep.Scenario()
+		s.Path, s.Fam, s.Buf, s.RBuf, s.HB = path, "boundary", wsize, rsize, []int{0, 0}
+		rep.Exec(s, nil, c12RunEncode(s))
+	}
+
+	// (1) element counts around 2^20 (quick) and around 2^16 (thorough), short arguments
+	for _, e := range []int{1<<20 - 1, 1 << 20, 1<<20 + 1} {
+		dec(c12Scn{Count: e}, c12Reader{buf: 4096, frag: "whole"})
+		par(c12Scn{Count: e}, 65536, 1<<32+7, 0)
+		if thorough {
+			dec(c12Scn{Count: e}, c12Reader{buf: 16, frag: "cuts", cuts: mid})
+			dec(c12Scn{Count: e}, c12Reader{buf: 1 << 20, frag: "1byte"})
+			dec(c12Scn{Count: e}, c12Reader{buf: 65536, frag: "cuts", cuts: pages})
+			par(c12Scn{Count: e}, 16, 0, 2)
+			enc(c12Scn{Count: e}, "encode-writer", 1<<20, 512*1024)
+			enc(c12Scn{Count: e}, "encode-resp", 4096, 32)
+		}
+	}
+	counts := []int{1<<16 - 1, 1 << 16, 1<<16 + 1}
+	if thorough {
+		// element count on both sides of the encoder's integer table (524287 is its last entry)
+		counts = append(counts, 512*1024-1, 512*1024, 512*1024+1)
+	}
+	for _, e := range counts {
+		dec(c12Scn{Count: e}, c12Reader{buf: 4096, frag: "whole"})
+		par(c12Scn{Count: e}, 65536, 1000, 0)
+		enc(c12Scn{Count: e}, "encode-resp", 4096, 32)
+		if thorough {
+			dec(c12Scn{Count: e}, c12Reader{buf: 16, frag: "1byte"})
+			dec(c12Scn{Count: e}, c12Reader{buf: 65536, frag: "cuts", cuts: mid})
+			enc(c12Scn{Count: e}, "encode-writer", 64, 32)
+		}
+	}
+	// (2) bulk lengths around 2^16, the integer table bound 524287|524288 and 2^20 (quick), 2^24 (thorough)
+	lens := []int{1<<16 - 1, 1 << 16, 1<<16 + 1, 512*1024 - 1, 512 * 1024, 512*1024 + 1, 1<<20 - 1, 1 << 20, 1<<20 + 1}
+	if thorough {
+		lens = append(lens, 1<<24-1, 1<<24, 1<<24+1)
+	}
+	for _, l := range lens {
+		dec(c12Scn{BulkLen: l}, c12Reader{buf: 4096, frag: "whole"})
+		dec(c12Scn{BulkLen: l}, c12Reader{buf: 65536, frag: "cuts", cuts: mid})
+		par(c12Scn{BulkLen: l}, 1<<20, 1<<32+7, 0)
+		enc(c12Scn{BulkLen: l}, "encode-resp", 4096, 32)
+		enc(c12Scn{BulkLen: l}, "encode-writer", 4096, 512*1024)
+		if thorough {
+			dec(c12Scn{BulkLen: l}, c12Reader{buf: 16, frag: "1byte"})
+			dec(c12Scn{BulkLen: l}, c12Reader{buf: 1 << 20, frag: "cuts", cuts: pages})
+		}
+	}
+	// (3) the connection's buffer sizes: writer 1 MiB, reply reader 512 KiB; the argument
+	// (plus the few header bytes before it) ends just below, at and above each of them
+	for d := -24; d <= 2; d++ {
+		if !thorough && d < -16 && d%4 != 0 {
+			continue
+		}
+		enc(c12Scn{BulkLen: 1<<20 + d}, "encode-writer", 1<<20, 512*1024)
+		enc(c12Scn{BulkLen: 512*1024 + d}, "encode-writer", 1<<20, 512*1024)
+		dec(c12Scn{BulkLen: 65536 + d}, c12Reader{buf: 65536, frag: "whole"})
+	}
+}
